@@ -864,6 +864,9 @@ class StubsStringGenerator:
         already_defined_names: set[str],
     ) -> str:
         superclass_class = self._get_class_in_package(superclass)
+        if superclass_class is None:
+            # The members of internal classes of other packages are unknown
+            return ""
 
         # Methods
         superclass_methods_text, existing_names = self._create_class_method_string(
@@ -1112,7 +1115,7 @@ class StubsStringGenerator:
 
         return indentations + f"\n{indentations}".join(todo_msgs) + "\n"
 
-    def _get_class_in_package(self, class_qname: str) -> Class:
+    def _get_class_in_package(self, class_qname: str) -> Class | None:
         class_qname = class_qname.replace(".", "/")
         class_path = "/".join(class_qname.split("/")[:-1])
         class_name = class_qname.split("/")[-1]
@@ -1127,9 +1130,7 @@ class StubsStringGenerator:
             ):
                 return self.api.classes[class_]
 
-        raise LookupError(
-            f"Expected finding class '{class_name}' in module '{self._get_module_id(get_actual_id=True)}'.",
-        )  # pragma: no cover
+        return None
 
     @staticmethod
     def _create_docstring_description_part(description: str, indentations: str) -> str:
